@@ -16,7 +16,10 @@ Mapped == <<Declared, rs.used, StageNames, rs.cur, rs.locked, Len(rs.prog), rs.d
 
 RefStep ==
   LET c == last'.call IN
-  IF last'.res # "ok"
+  IF c.call = "uses_list"
+  THEN IF last'.res = "RuntimeError" THEN UNCHANGED Mapped
+       ELSE LC!LUsesSome({d \in Declared' : d \notin Declared}) \/ UNCHANGED Mapped
+  ELSE IF last'.res # "ok"
   THEN (UNCHANGED Mapped) \/ (c.call = "bake" /\ LC!LBakeFail)
   ELSE CASE c.call = "uses" -> LC!LUses(ObjName[c.o])
          [] StepAdding(c) -> LC!LStep(Operands(c), IF Creates(c) THEN c.n ELSE "-", StepUses(c))
@@ -28,11 +31,16 @@ RefStep ==
 OutcomeAgrees ==
   LET c == last'.call
       want == CASE c.call = "uses" -> LC!UsesOutcome(ObjName[c.o])
+                [] c.call = "uses_list" -> IF rs.locked THEN "RuntimeError"
+                                           ELSE IF \E i \in DOMAIN c.os : \/ ObjName[c.os[i]] \in Declared
+                                                                         \/ \E j \in DOMAIN c.os : j < i /\ ObjName[c.os[j]] = ObjName[c.os[i]]
+                                                THEN "refused" ELSE "ok"
                 [] StepAdding(c) -> LC!StepOutcome(Operands(c), IF Creates(c) THEN c.n ELSE "-")
                 [] c.call = "start_stage" -> LC!StartOutcome(c.name)
                 [] c.call = "end_stage" -> LC!EndOutcome(c.name)
                 [] c.call = "bake" -> LC!BakeOutcome
-  IN  IF c.call = "bake" /\ want = "ok" THEN last'.res \in {"ok", "ValueError"}      \* a doomed program fails at bake
+  IN  IF rs.dead /\ c.call \in {"start_stage", "end_stage"} THEN last'.res = "notRuntimeError"   \* not locked; otherwise unspecified
+      ELSE IF c.call = "bake" /\ want = "ok" THEN last'.res \in {"ok", "ValueError"}      \* a doomed program fails at bake
       ELSE IF c.call = "bake" /\ want = "refused" THEN last'.res \in {"refused", "ValueError"}
       ELSE last'.res = want
 
